@@ -145,68 +145,68 @@ package node
 // containsCall is defined by one equation per node type ("a Call occurs in the node, outside function
 // literals"); every implementation is proved to compute it.
 //@ ghost containsCall(n HasCaller) bool
-//@ type HasCaller.HasCall [C05,C12,C01] pure
+//@ type HasCaller.HasCall [C05,C12,C01,C11] pure
 //@   params self
 //@   ensures[exact] result == containsCall(self)
-//@ func (Call).HasCall [C12,C01] implements HasCaller.HasCall
+//@ func (Call).HasCall [C12,C01,C11] implements HasCaller.HasCall
 //@   assumes[def] containsCall(self) == (true)
-//@ func (Function).HasCall [C12,C01] implements HasCaller.HasCall
+//@ func (Function).HasCall [C12,C01,C11] implements HasCaller.HasCall
 //@   assumes[def] containsCall(self) == (false)
-//@ func (Int).HasCall [C12,C01] implements HasCaller.HasCall
+//@ func (Int).HasCall [C12,C01,C11] implements HasCaller.HasCall
 //@   assumes[def] containsCall(self) == (false)
-//@ func (Float).HasCall [C12,C01] implements HasCaller.HasCall
+//@ func (Float).HasCall [C12,C01,C11] implements HasCaller.HasCall
 //@   assumes[def] containsCall(self) == (false)
-//@ func (String).HasCall [C12,C01] implements HasCaller.HasCall
+//@ func (String).HasCall [C12,C01,C11] implements HasCaller.HasCall
 //@   assumes[def] containsCall(self) == (false)
-//@ func (Bool).HasCall [C12,C01] implements HasCaller.HasCall
+//@ func (Bool).HasCall [C12,C01,C11] implements HasCaller.HasCall
 //@   assumes[def] containsCall(self) == (false)
-//@ func (BinOp).HasCall [C12,C01] implements HasCaller.HasCall
+//@ func (BinOp).HasCall [C12,C01,C11] implements HasCaller.HasCall
 //@   assumes[def] containsCall(self) == (containsCall(b.Left) || containsCall(b.Right))
-//@ func (Assign).HasCall [C12,C01] implements HasCaller.HasCall
+//@ func (Assign).HasCall [C12,C01,C11] implements HasCaller.HasCall
 //@   assumes[def] containsCall(self) == (containsCall(a.Value))
-//@ func (UnOp).HasCall [C12,C01] implements HasCaller.HasCall
+//@ func (UnOp).HasCall [C12,C01,C11] implements HasCaller.HasCall
 //@   assumes[def] containsCall(self) == (containsCall(u.Target))
-//@ func (IndexAt).HasCall [C12,C01] implements HasCaller.HasCall
+//@ func (IndexAt).HasCall [C12,C01,C11] implements HasCaller.HasCall
 //@   assumes[def] containsCall(self) == (containsCall(u.Ary) || containsCall(u.At))
-//@ func (IndexFromTo).HasCall [C12,C01] implements HasCaller.HasCall
+//@ func (IndexFromTo).HasCall [C12,C01,C11] implements HasCaller.HasCall
 //@   assumes[def] containsCall(self) == (containsCall(u.Ary) || containsCall(u.From) || containsCall(u.To))
-//@ func (If).HasCall [C12,C01] implements HasCaller.HasCall
+//@ func (If).HasCall [C12,C01,C11] implements HasCaller.HasCall
 //@   assumes[def] containsCall(self) == (containsCall(i.Condition) || containsCall(i.TrueCase))
-//@ func (IfElse).HasCall [C12,C01] implements HasCaller.HasCall
+//@ func (IfElse).HasCall [C12,C01,C11] implements HasCaller.HasCall
 //@   assumes[def] containsCall(self) == (containsCall(i.Condition) || containsCall(i.TrueCase) || containsCall(i.FalseCase))
-//@ func (While).HasCall [C12,C01] implements HasCaller.HasCall
+//@ func (While).HasCall [C12,C01,C11] implements HasCaller.HasCall
 //@   assumes[def] containsCall(self) == (containsCall(w.Condition) || containsCall(w.Body))
-//@ func (For).HasCall [C12,C01] implements HasCaller.HasCall
+//@ func (For).HasCall [C12,C01,C11] implements HasCaller.HasCall
 //@   assumes[def] containsCall(self) == (containsCall(f.Iterators) || containsCall(f.Body))
-//@ func (Return).HasCall [C12,C01] implements HasCaller.HasCall
+//@ func (Return).HasCall [C12,C01,C11] implements HasCaller.HasCall
 //@   assumes[def] containsCall(self) == (containsCall(r.Target))
-//@ func (Yield).HasCall [C12,C01] implements HasCaller.HasCall
+//@ func (Yield).HasCall [C12,C01,C11] implements HasCaller.HasCall
 //@   assumes[def] containsCall(self) == (containsCall(y.Target))
-//@ func (Read).HasCall [C12,C01] implements HasCaller.HasCall
+//@ func (Read).HasCall [C12,C01,C11] implements HasCaller.HasCall
 //@   assumes[def] containsCall(self) == (false)
-//@ func (Name).HasCall [C12,C01] implements HasCaller.HasCall
+//@ func (Name).HasCall [C12,C01,C11] implements HasCaller.HasCall
 //@   assumes[def] containsCall(self) == (false)
-//@ func (Local).HasCall [C12,C01] implements HasCaller.HasCall
+//@ func (Local).HasCall [C12,C01,C11] implements HasCaller.HasCall
 //@   assumes[def] containsCall(self) == (false)
-//@ func (Closure).HasCall [C12,C01] implements HasCaller.HasCall
+//@ func (Closure).HasCall [C12,C01,C11] implements HasCaller.HasCall
 //@   assumes[def] containsCall(self) == (false)
-//@ func (Write).HasCall [C12,C01] implements HasCaller.HasCall
+//@ func (Write).HasCall [C12,C01,C11] implements HasCaller.HasCall
 //@   assumes[def] containsCall(self) == containsCall(w.Value)
 //@   assumes[builtin_shape] !containsCall(w.Value)   // these nodes exist only in builtin bodies, applied to a parameter
-//@ func (Aton).HasCall [C12,C01] implements HasCaller.HasCall
+//@ func (Aton).HasCall [C12,C01,C11] implements HasCaller.HasCall
 //@   assumes[def] containsCall(self) == containsCall(a.Value)
 //@   assumes[builtin_shape] !containsCall(a.Value)   // these nodes exist only in builtin bodies, applied to a parameter
-//@ func (Toa).HasCall [C12,C01] implements HasCaller.HasCall
+//@ func (Toa).HasCall [C12,C01,C11] implements HasCaller.HasCall
 //@   assumes[def] containsCall(self) == containsCall(t.Value)
 //@   assumes[builtin_shape] !containsCall(t.Value)   // these nodes exist only in builtin bodies, applied to a parameter
-//@ func (Exit).HasCall [C12,C01] implements HasCaller.HasCall
+//@ func (Exit).HasCall [C12,C01,C11] implements HasCaller.HasCall
 //@   assumes[def] containsCall(self) == containsCall(e.Value)
 //@   assumes[builtin_shape] !containsCall(e.Value)   // these nodes exist only in builtin bodies, applied to a parameter
-//@ func (List).HasCall [C12,C01] implements HasCaller.HasCall
+//@ func (List).HasCall [C12,C01,C11] implements HasCaller.HasCall
 //@   assumes[def] (forall k :: 0 <= k && k < len(l.Elems) && containsCall(l.Elems[k]) ==> containsCall(self))
 //@       && ((forall k :: 0 <= k && k < len(l.Elems) ==> !containsCall(l.Elems[k])) ==> !containsCall(self))
 //@   loop 0 invariant -1 <= rangeindex && rangeindex < len(l.Elems) && (forall k :: 0 <= k && k <= rangeindex ==> !containsCall(l.Elems[k]))
-//@ func (Block).HasCall [C12,C01] implements HasCaller.HasCall
+//@ func (Block).HasCall [C12,C01,C11] implements HasCaller.HasCall
 //@   assumes[def] (forall k :: 0 <= k && k < len(b.Body) && containsCall(b.Body[k]) ==> containsCall(self))
 //@       && ((forall k :: 0 <= k && k < len(b.Body) ==> !containsCall(b.Body[k])) ==> !containsCall(self))
 //@   loop 0 invariant -1 <= rangeindex && rangeindex < len(b.Body) && (forall k :: 0 <= k && k <= rangeindex ==> !containsCall(b.Body[k]))
